@@ -81,6 +81,15 @@ Theorem xml_subslices :
 Proof. exact xml_subslices_proof. Qed.
 Print Assumptions xml_subslices.
 
+(* C02/C11 token contents: no token contains a NUL byte; a Text token contains no '<' and is maximal
+   (the byte after it is '<', an embedded NUL, or the end of the input). *)
+Theorem xml_token_contents :
+  forall d s ty lo hi s', reach d s -> next s = Some (ty, Some (lo, hi), s') ->
+    (forall i, lo <= i < hi -> getz d i <> 0) /\
+    (ty = TText -> (forall i, lo <= i < hi -> getz d i <> 60) /\ (getz d hi = 60 \/ getz d hi = 0)).
+Proof. exact xml_token_contents_proof. Qed.
+Print Assumptions xml_token_contents.
+
 (* C11 bracketing: in every run, Attribute tokens and the three closers occur only after a
    StartTag/StartTagPI (and the Attributes following it), every other token only outside a tag. *)
 Theorem xml_attr_bracketing :
